@@ -69,6 +69,63 @@ def model_checks(d, tier, which):
     return out
 
 
+def _corrupt(prop, run):
+    """One recorded field of one run is altered so that the property no longer holds on the record; returns the altered run or None."""
+    import copy
+    rr = copy.deepcopy(run)
+    steps = [x for x in rr if x["op"] == "step"]
+    if prop == "C01":
+        for x in steps:
+            if x["commits"]:
+                x["commits"] = x["commits"] + [x["commits"][-1]]      # the same block committed twice
+                return rr
+    if prop == "C03":
+        for i, x in enumerate(steps):
+            v = [s for s in x["signed"] if s[0] == "vote"]
+            if v:
+                for y in steps[i + 1:]:
+                    if y["node"] == x["node"]:
+                        y["signed"] = y["signed"] + [v[0]]                # a second vote in a view already voted in
+                        return rr
+    if prop == "C06":
+        for x in steps:
+            if x["exec"]:
+                x["exec"] = x["exec"][1:]                                  # one executed command is not reported
+                return rr
+    if prop == "C07":
+        for x in steps:
+            if x["post"]["view"] > x["pre"]["view"]:
+                x["vcs"] = x["vcs"][1:]                                    # a view increment that was not signalled
+                return rr
+    if prop == "C05":
+        healed = False
+        hit = False
+        for x in rr:
+            if x["op"] == "heal":
+                healed = True
+            if healed and x["op"] == "step" and x["commits"]:
+                x["commits"], x["exec"] = [], []                             # nothing is committed after the heal
+                hit = True
+        return rr if hit else None
+    return None
+
+
+def binding_selftest(d, rows, prop, cfg):
+    """The trace specification must reject a record that breaks the property: one field of one real run is corrupted and
+    TLC has to report the violation.  An oracle that accepts the corrupted record is vacuous (infrastructure error)."""
+    for run in split_runs(rows):
+        if run[0]["op"] != "init" or (prop == "C05" and run[0]["rs"] == "fasthotstuff"):
+            continue
+        bad = _corrupt(prop, run)
+        if bad is None:
+            continue
+        rt, l = judge(d, bad, cfg)
+        if rt.status != "violation":
+            raise vlib.InfraError("binding self-test: the corrupted record was accepted (%s, %s)" % (prop, rt.status))
+        return "a corrupted record (one field of a real run altered) is rejected at line %d" % (l or 0)
+    return "no run suitable for corruption"
+
+
 def conformance(d, rows, max_rounds=6):
     """Pass B: replay the runs without Byzantine action through the replica model (spec/HotStuff.tla via Trace_R.tla).
     Returns coverage fields; drift is a warning, never a verdict."""
@@ -192,6 +249,7 @@ def run_property(prop, tier, seed, driver_args, rule, extra_cov=None, assumption
             if not rows:
                 break
         conf_cov = conformance(d, allrows)
+        conf_cov["binding_selftest"] = binding_selftest(d, allrows, prop, cfg) if not v.violations else "skipped (violations reported)"
         # panics inside replicas discredit nothing here but are reported (they belong to C10)
         panics = sum(1 for x in allrows if x["op"] == "step" and x["panic"])
     rc = v.finish()
